@@ -64,7 +64,7 @@ def main():
                 lines = [l for l in o.splitlines() if l.startswith(("VIOLATION", "ANALYSIS-ERROR", "  fakesnow"))]
                 out[f"check_{p}"] = {"rc": rc, "lines": lines[:6]}
         finally:
-            sh("git -C /repo checkout -- .")
+            sh("git -C /repo checkout -- . && git -C /repo clean -fdq fakesnow")
             # evidence files were rewritten against the mutant: restore them
             sh("git -C /verif checkout -- evidence")
     print(json.dumps(out, indent=1))
